@@ -614,6 +614,8 @@ impl DebugSession {
             "setExceptionBreakpoints" => self.handle_set_exception_breakpoints(req)?,
             "dataBreakpointInfo" => self.handle_data_breakpoint_info(req)?,
             "setDataBreakpoints" => self.handle_set_data_breakpoints(req)?,
+            #[cfg(feature = "verif")]
+            "verifState" => self.verif_state(req)?,
             "breakpointLocations" => self.handle_breakpoint_locations(req)?,
             "exceptionInfo" => self.handle_exception_info(req)?,
             "threads" => self.handle_threads(req)?,
